@@ -235,6 +235,42 @@ def check_opls(case, stats):
     return viols, True
 
 
+# ---------------------------------------------------------------- several molecule types
+def multimol_cases(tier):
+    for order in ("multi-first", "multi-last", "multi-middle"):
+        for counts in ((1, 1, 1), (2, 1, 2), (1, 3, 1)):
+            yield dict(kind="multimol", order=order, counts=list(counts))
+
+
+def check_multimol(case, stats):
+    """three molecule types: MULTI has a dihedral resolved to a 3-term type, SINGLE to a 1-term type, PLAIN has explicit
+    parameters; every instance must carry exactly the terms of its own type, whatever the definition order"""
+    viols = []
+    at = [f"{t} 12.0 0.0 A 0.3 0.1" for t in ("TA", "TB", "TC", "TD", "UA", "UB", "UC", "UD")]
+    dtypes = ["TA TB TC TD 9 0 1.5 1", "TA TB TC TD 9 180 2.5 2", "TA TB TC TD 9 60 3.5 3", "UA UB UC UD 9 30 7.5 1"]
+    mols = {"MULTI": (["TA", "TB", "TC", "TD"], "1 2 3 4 9"), "SINGLE": (["UA", "UB", "UC", "UD"], "4 3 2 1 9"),
+            "PLAIN": (["UA", "TB", "UC", "TD"], "1 2 3 4 9 11 2.2 3")}
+    order = {"multi-first": ["MULTI", "SINGLE", "PLAIN"], "multi-last": ["SINGLE", "PLAIN", "MULTI"], "multi-middle": ["PLAIN", "MULTI", "SINGLE"]}[case["order"]]
+    out = ["[ defaults ]", "1 2 no 1.0 1.0", "[ atomtypes ]"] + at + ["[ dihedraltypes ]"] + dtypes
+    for name in order:
+        types, dline = mols[name]
+        out += ["[ moleculetype ]", f"{name} 1", "[ atoms ]"] + [f"{i} {t} 1 R a{i} {i} 0.0 12.0" for i, t in enumerate(types, 1)]
+        out += ["[ bonds ]", "1 2 1 0.1 10", "2 3 1 0.1 10", "3 4 1 0.1 10", "[ dihedrals ]", dline]
+    out += ["[ system ]", "v", "[ molecules ]"] + [f"{n} {c}" for n, c in zip(order, case["counts"])]
+    try:
+        top = read_pre("\n".join(out) + "\n")
+    except Exception as exc:  # noqa
+        return [crash_violation(exc, case, assertion="preprocess-does-not-crash")], True
+    want = {"MULTI": sorted([("9", "0", "1.5", "1"), ("9", "180", "2.5", "2"), ("9", "60", "3.5", "3")]),
+            "SINGLE": [("9", "30", "7.5", "1")], "PLAIN": [("9", "11", "2.2", "3")]}
+    for n, mm in enumerate(top.molecules):
+        got = sorted(tuple(str(p) for p in i.parameters) for i in mm.molecule.interactions.get("dihedrals", []))
+        if got != want[mm.mol_name]:
+            viols.append(dict(assertion="all-terms-in-every-instance", tags=["several-molecule-types"],
+                              message=f"instance {n} ({mm.mol_name}) dihedral terms {got} expected {want[mm.mol_name]} | order {order} counts {case['counts']}", case=case, detail={}))
+    return viols, True
+
+
 # ---------------------------------------------------------------- non-bonded
 def nb_cases(tier):
     types = ["TA", "TB", "TC"]
@@ -323,7 +359,7 @@ def cases(tier):
             batch = []
     if batch:
         yield dict(kind="batch", items=batch, tier=tier)
-    batch = list(simple_cases(tier))
+    batch = list(simple_cases(tier)) + list(multimol_cases(tier))
     for i in range(0, len(batch), 12):
         yield dict(kind="batch", items=batch[i:i + 12], tier=tier)
     batch = list(nb_cases(tier))
@@ -331,7 +367,7 @@ def cases(tier):
         yield dict(kind="batch", items=batch[i:i + 24], tier=tier)
 
 
-FUNCS = {"dih": check_dih, "simple": check_simple, "macro": check_macro, "opls": check_opls, "nb": check_nb}
+FUNCS = {"multimol": check_multimol, "dih": check_dih, "simple": check_simple, "macro": check_macro, "opls": check_opls, "nb": check_nb}
 
 
 def run_case(case):
